@@ -42,7 +42,7 @@ func c08Oracle(c ev.Case) Res {
 	if i := strings.IndexByte(f, 'c'); i >= 0 && i != len(f)-1 {
 		return fail("fingerprint %q carries the comment class before the last position", f)
 	}
-	if kw["0"+gen.UpperASCII(f)] != 'F' {
+	if kwTab()["0"+gen.UpperASCII(f)] != 'F' {
 		return fail("fingerprint %q is not in the shipped blacklist", f)
 	}
 	found := false
@@ -90,7 +90,7 @@ func TestC08(t *testing.T) {
 	c.Rapid(p, 8, pick(15000, 400000), func(rt *rapid.T, sh int) ev.Case {
 		base := rapid.SampledFrom(att).Draw(rt, "base")
 		if rapid.IntRange(0, 2).Draw(rt, "src") == 0 {
-			base = rapid.SampledFrom(corpus.SQL).Draw(rt, "fixture")
+			base = rapid.SampledFrom(corp().SQL).Draw(rt, "fixture")
 		}
 		return c08Case(gen.Mutate(rt, base, gen.FragSQL))
 	})
